@@ -79,11 +79,11 @@ def solvers_for(formula):
     if c == 'L':
         return ['def', 'lpg', 'ort', 'grb', 'eco']
     if c == 'LI':
-        return ['def', 'ort', 'grb', 'eco']
+        return ['def', 'ort', 'grb']      # ECOS_BB is not reliable (see DESIGN.md section 8)
     if c == 'Q':
         return ['grb', 'eco']
     if c == 'QI':
-        return ['grb', 'eco']
+        return ['grb']
     if c == 'X':
         return ['eco']
     return []
@@ -259,3 +259,29 @@ def rstr(rng, choices):
 
 def exc_name(e):
     return type(e).__name__
+
+
+def user_array(a, mode=None):
+    """An ndarray as a user might hand it over: read-only, optionally a strided view,
+    Fortran-ordered, float32/int typed (only when exactly representable) or a scipy
+    sparse matrix.  The numeric content is unchanged."""
+    a = np.array(a, dtype=float)
+    if mode == 'strided' and a.ndim >= 1 and a.size:
+        big = np.zeros(a.shape[:-1] + (2 * a.shape[-1],))
+        big[..., ::2] = a
+        a = big[..., ::2]
+    elif mode == 'fortran' and a.ndim == 2:
+        a = np.asfortranarray(a)
+    elif mode == 'f32':
+        b = a.astype(np.float32)
+        if np.array_equal(b.astype(float), a):
+            a = b
+    elif mode == 'int':
+        if np.all(a == np.round(a)) and np.all(np.abs(a) < 1e9):
+            a = a.astype(np.int64)
+    elif mode == 'sparse' and a.ndim == 2:
+        m = sp.csr_matrix(a)
+        return m
+    if isinstance(a, np.ndarray):
+        a.flags.writeable = False
+    return a
